@@ -187,39 +187,64 @@ theorem fuseBlock_noinputs (fc : FCfg) (vars : List VarInfo) (deps : Nat → Lis
 
 /-! ### The invariant -/
 
-structure FInv (P : List Stmt) (blockOf : Nat → Nat) (b : Nat) (pre : List Stmt) (grp : List Nat) : Prop where
+/-- `body`: the emitted statements with their blocks, in emission order; `pre`: the statements the loop has passed in the current
+block `b`.  The last three fields are only needed for the text-order statement (`Proofs/FuseText.lean`): members of non-trivial
+groups allow re-use; all readers of a non-last member are in its block; a non-first member is defined by an assignment in its block. -/
+structure FInv (body : List (Nat × Stmt)) (blockOf : Nat → Nat) (reuse : Nat → Bool) (b : Nat) (pre : List Stmt)
+    (grp : List Nat) : Prop where
   rng : ∀ x ∈ grp, x < grp.length
-  ord : ∀ w1 w2, w1 ≠ w2 → ρOf grp w1 = ρOf grp w2 → Before P w1 w2 ∨ Before P w2 w1
+  ord : ∀ w1 w2, w1 ≠ w2 → ρOf grp w1 = ρOf grp w2 → Before (body.map (·.2)) w1 w2 ∨ Before (body.map (·.2)) w2 w1
   defd : ∀ w1 w2, w1 ≠ w2 → ρOf grp w1 = ρOf grp w2 → blockOf w1 = b → w1 ∈ outsOf pre
   blk : ∀ w1 w2, ρOf grp w1 = ρOf grp w2 → blockOf w1 = blockOf w2
   le : ∀ w1 w2, w1 ≠ w2 → ρOf grp w1 = ρOf grp w2 → blockOf w1 ≤ b
+  ru : ∀ w1 w2, w1 ≠ w2 → ρOf grp w1 = ρOf grp w2 → reuse w1 = true
+  rd : ∀ w1 w2, w1 ≠ w2 → ρOf grp w1 = ρOf grp w2 → Before (body.map (·.2)) w1 w2 →
+    ∀ y ∈ body, w1 ∈ y.2.inputVars → y.1 = blockOf w1
+  asg : ∀ w1 w2, w1 ≠ w2 → ρOf grp w1 = ρOf grp w2 → Before (body.map (·.2)) w1 w2 →
+    ∃ bpre rhs eff brest, body = bpre ++ (blockOf w2, Stmt.assign w2 rhs eff) :: brest
 
-theorem FInv.mono {P : List Stmt} {blockOf : Nat → Nat} {b : Nat} {pre pre' : List Stmt} {grp : List Nat}
-    (h : FInv P blockOf b pre grp) (hsub : ∀ w ∈ outsOf pre, w ∈ outsOf pre') : FInv P blockOf b pre' grp :=
-  ⟨h.rng, h.ord, fun w1 w2 hne hs hb => hsub _ (h.defd w1 w2 hne hs hb), h.blk, h.le⟩
+theorem FInv.mono {body : List (Nat × Stmt)} {blockOf : Nat → Nat} {reuse : Nat → Bool} {b : Nat} {pre pre' : List Stmt}
+    {grp : List Nat} (h : FInv body blockOf reuse b pre grp) (hsub : ∀ w ∈ outsOf pre, w ∈ outsOf pre') :
+    FInv body blockOf reuse b pre' grp :=
+  ⟨h.rng, h.ord, fun w1 w2 hne hs hb => hsub _ (h.defd w1 w2 hne hs hb), h.blk, h.le, h.ru, h.rd, h.asg⟩
 
 /-- The next block: no variable of it is in a non-trivial group yet. -/
-theorem FInv.next {P : List Stmt} {blockOf : Nat → Nat} {b : Nat} {pre : List Stmt} {grp : List Nat}
-    (h : FInv P blockOf b pre grp) : FInv P blockOf (b + 1) [] grp :=
+theorem FInv.next {body : List (Nat × Stmt)} {blockOf : Nat → Nat} {reuse : Nat → Bool} {b : Nat} {pre : List Stmt}
+    {grp : List Nat} (h : FInv body blockOf reuse b pre grp) : FInv body blockOf reuse (b + 1) [] grp :=
   ⟨h.rng, h.ord, fun w1 w2 hne hs hb => by have := h.le w1 w2 hne hs; omega, h.blk,
-   fun w1 w2 hne hs => Nat.le_succ_of_le (h.le w1 w2 hne hs)⟩
+   fun w1 w2 hne hs => Nat.le_succ_of_le (h.le w1 w2 hne hs), h.ru, h.rd, h.asg⟩
 
-theorem FInv.init (P : List Stmt) (blockOf : Nat → Nat) (n : Nat) : FInv P blockOf 0 [] (List.range n) := by
-  refine ⟨?_, ?_, ?_, ?_, ?_⟩
+theorem FInv.init (body : List (Nat × Stmt)) (blockOf : Nat → Nat) (reuse : Nat → Bool) (n : Nat) :
+    FInv body blockOf reuse 0 [] (List.range n) := by
+  refine ⟨?_, ?_, ?_, ?_, ?_, ?_, ?_, ?_⟩
   · intro x hx; simpa using hx
   · intro w1 w2 hne hs; rw [ρOf_range, ρOf_range] at hs; exact absurd hs hne
   · intro w1 w2 hne hs; rw [ρOf_range, ρOf_range] at hs; exact absurd hs hne
   · intro w1 w2 hs; rw [ρOf_range, ρOf_range] at hs; rw [hs]
   · intro w1 w2 hne hs; rw [ρOf_range, ρOf_range] at hs; exact absurd hs hne
+  · intro w1 w2 hne hs; rw [ρOf_range, ρOf_range] at hs; exact absurd hs hne
+  · intro w1 w2 hne hs; rw [ρOf_range, ρOf_range] at hs; exact absurd hs hne
+  · intro w1 w2 hne hs; rw [ρOf_range, ρOf_range] at hs; exact absurd hs hne
 
-/-- **The merge step**: `o` is defined by the current statement, `v` is one of its inputs, defined earlier, with no later
-reader; both belong to the current block.  Then merging the group of `o` into the group of `v` keeps the invariant. -/
-theorem FInv.merge {P : List Stmt} {blockOf : Nat → Nat} {b : Nat} {pre : List Stmt} {grp : List Nat}
-    (hnd : (outsOf P).Nodup) (rest : List Stmt) (o : Nat) (rhs : E) (eff : Bool)
-    (hP : P = pre ++ Stmt.assign o rhs eff :: rest) (hinv : FInv P blockOf b pre grp) (v : Nat)
-    (hv : v < grp.length) (ho : o < grp.length) (hvr : v ∈ rhs.vars) (hvdef : v ∈ outsOf pre)
-    (hdead : ∀ r ∈ rest, v ∉ r.inputVars) (hbv : blockOf v = b) (hbo : blockOf o = b) :
-    FInv P blockOf b (pre ++ [Stmt.assign o rhs eff]) (fuseGroups grp v o) := by
+/-- **The merge step**: `o` is defined by the current statement (an assignment in block `b`), `v` is one of its inputs, defined
+earlier, with no later reader and all readers in block `b`; both belong to block `b` and allow re-use.  Then merging the group of
+`o` into the group of `v` keeps the invariant. -/
+theorem FInv.merge {body : List (Nat × Stmt)} {blockOf : Nat → Nat} {reuse : Nat → Bool} {b : Nat} {grp : List Nat}
+    {bpre : List (Nat × Stmt)} (hnd : (outsOf (body.map (·.2))).Nodup) (brest : List (Nat × Stmt)) (o : Nat) (rhs : E) (eff : Bool)
+    (hbody : body = bpre ++ (b, Stmt.assign o rhs eff) :: brest)
+    (hinv : FInv body blockOf reuse b (bpre.map (·.2)) grp) (v : Nat)
+    (hv : v < grp.length) (ho : o < grp.length) (hvr : v ∈ rhs.vars) (hvdef : v ∈ outsOf (bpre.map (·.2)))
+    (hdead : ∀ r ∈ brest.map (·.2), v ∉ r.inputVars) (hbv : blockOf v = b) (hbo : blockOf o = b)
+    (hrv : reuse v = true) (hro : reuse o = true) (hrd : ∀ y ∈ body, v ∈ y.2.inputVars → y.1 = b) :
+    FInv body blockOf reuse b (bpre.map (·.2) ++ [Stmt.assign o rhs eff]) (fuseGroups grp v o) := by
+  have hP : body.map (·.2) = bpre.map (·.2) ++ Stmt.assign o rhs eff :: brest.map (·.2) := by rw [hbody]; simp
+  generalize hPdef : body.map (·.2) = P at hP hnd
+  have hordP := hinv.ord
+  have hrdP := hinv.rd
+  have hasgP := hinv.asg
+  rw [hPdef] at hordP hrdP hasgP
+  generalize hpre : bpre.map (·.2) = pre at hP hvdef hinv
+  generalize hrest : brest.map (·.2) = rest at hP hdead
   have hsub : ∀ w ∈ outsOf pre, w ∈ outsOf (pre ++ [Stmt.assign o rhs eff]) := by
     intro w hw; rw [outsOf_append]; exact List.mem_append_left _ hw
   have ho_out : o ∈ (Stmt.assign o rhs eff).outputVars := by simp [Stmt.outputVars]
@@ -246,7 +271,7 @@ theorem FInv.merge {P : List Stmt} {blockOf : Nat → Nat} {b : Nat} {pre : List
   -- `v` is the last member of its group
   have hmax : ∀ a, a ≠ v → ρOf grp a = ρOf grp v → Before P a v := by
     intro a hav h
-    rcases hinv.ord a v hav h with hb | hb
+    rcases hordP a v hav h with hb | hb
     · exact hb
     · exfalso
       obtain ⟨p, sa, ra, e, oa, _, dead⟩ := hb
@@ -261,6 +286,19 @@ theorem FInv.merge {P : List Stmt} {blockOf : Nat → Nat} {b : Nat} {pre : List
         exact (mem_outsOf _ _).2 ⟨sa, by simp, oa⟩
       · refine dead (Stmt.assign o rhs eff) (by rw [hr]; simp) ?_
         simpa [Stmt.inputVars, Stmt.inputs] using hvr
+  -- members of the group of `v` are defined by statements that were passed: `o` is not defined before any of them
+  have hgdef : ∀ a, ρOf grp a = ρOf grp v → a ∈ outsOf pre := by
+    intro a h
+    by_cases hav : a = v
+    · rw [hav]; exact hvdef
+    · exact hinv.defd a v hav h (by rw [hinv.blk a v h]; exact hbv)
+  have hnotBefore : ∀ a, ρOf grp a = ρOf grp v → ¬ Before P o a := by
+    intro a h hb
+    obtain ⟨p, t, r, e, at_, od, _⟩ := hb
+    obtain ⟨mid, _, hr⟩ := split_prefix P hnd pre p rest r _ t o hP e ho_out od
+    refine hdisj.2.1 a (hgdef a h) ?_
+    rw [hr]
+    exact (mem_outsOf _ _).2 ⟨t, by simp, at_⟩
   -- normal form: `o` joins the group of `v`
   have hnorm : ∀ w1 w2, ρOf (fuseGroups grp v o) w1 = ρOf (fuseGroups grp v o) w2 →
       ρOf grp (if w1 = o then v else w1) = ρOf grp (if w2 = o then v else w2) := by
@@ -274,8 +312,9 @@ theorem FInv.merge {P : List Stmt} {blockOf : Nat → Nat} {b : Nat} {pre : List
     rw [f w1, f w2] at h
     exact h
   have hgrp : ∀ a, a ≠ v → ρOf grp a = ρOf grp v → Before P a o := fun a hav h => (hmax a hav h).trans hnd B0
-  refine ⟨fuseGroups_rng grp hinv.rng v o hv, ?_, ?_, ?_, ?_⟩
-  · intro w1 w2 hne h
+  refine ⟨fuseGroups_rng grp hinv.rng v o hv, ?_, ?_, ?_, ?_, ?_, ?_, ?_⟩
+  · rw [hPdef]
+    intro w1 w2 hne h
     have h' := hnorm w1 w2 h
     by_cases h1 : w1 = o <;> by_cases h2 : w2 = o
     · exact absurd (h1.trans h2.symm) hne
@@ -290,16 +329,14 @@ theorem FInv.merge {P : List Stmt} {blockOf : Nat → Nat} {b : Nat} {pre : List
       · subst h3; exact Or.inl B0
       · exact Or.inl (hgrp w1 h3 h')
     · rw [if_neg h1, if_neg h2] at h'
-      exact hinv.ord w1 w2 hne h'
+      exact hordP w1 w2 hne h'
   · intro w1 w2 hne h hb
     have h' := hnorm w1 w2 h
     by_cases h1 : w1 = o <;> by_cases h2 : w2 = o
     · exact absurd (h1.trans h2.symm) hne
     · rw [h1]; exact ho_new
     · rw [if_neg h1, if_pos h2] at h'
-      by_cases h3 : w1 = v
-      · rw [h3]; exact hsub _ hvdef
-      · exact hsub _ (hinv.defd w1 v h3 h' hb)
+      exact hsub _ (hgdef w1 h')
     · rw [if_neg h1, if_neg h2] at h'
       exact hsub _ (hinv.defd w1 w2 hne h' hb)
   · intro w1 w2 h
@@ -321,6 +358,42 @@ theorem FInv.merge {P : List Stmt} {blockOf : Nat → Nat} {b : Nat} {pre : List
       rw [hinv.blk w1 v h', hbv]; exact Nat.le_refl _
     · rw [if_neg h1, if_neg h2] at h'
       exact hinv.le w1 w2 hne h'
+  · intro w1 w2 hne h
+    have h' := hnorm w1 w2 h
+    by_cases h1 : w1 = o <;> by_cases h2 : w2 = o
+    · exact absurd (h1.trans h2.symm) hne
+    · rw [h1]; exact hro
+    · rw [if_neg h1, if_pos h2] at h'
+      by_cases h3 : w1 = v
+      · rw [h3]; exact hrv
+      · exact hinv.ru w1 v h3 h'
+    · rw [if_neg h1, if_neg h2] at h'
+      exact hinv.ru w1 w2 hne h'
+  · rw [hPdef]
+    intro w1 w2 hne h hB y hy hin
+    have h' := hnorm w1 w2 h
+    by_cases h1 : w1 = o <;> by_cases h2 : w2 = o
+    · exact absurd (h1.trans h2.symm) hne
+    · rw [if_pos h1, if_neg h2] at h'
+      rw [h1] at hB
+      exact absurd hB (hnotBefore w2 h'.symm)
+    · rw [if_neg h1, if_pos h2] at h'
+      by_cases h3 : w1 = v
+      · rw [h3, hbv]; exact hrd y hy (by rw [← h3]; exact hin)
+      · exact hrdP w1 v h3 h' (hmax w1 h3 h') y hy hin
+    · rw [if_neg h1, if_neg h2] at h'
+      exact hrdP w1 w2 hne h' hB y hy hin
+  · rw [hPdef]
+    intro w1 w2 hne h hB
+    have h' := hnorm w1 w2 h
+    by_cases h1 : w1 = o <;> by_cases h2 : w2 = o
+    · exact absurd (h1.trans h2.symm) hne
+    · rw [if_pos h1, if_neg h2] at h'
+      rw [h1] at hB
+      exact absurd hB (hnotBefore w2 h'.symm)
+    · exact ⟨bpre, rhs, eff, brest, by rw [h2, hbo]; exact hbody⟩
+    · rw [if_neg h1, if_neg h2] at h'
+      exact hasgP w1 w2 hne h' hB
 
 /-! ### The loop over the statements of a block -/
 
@@ -353,8 +426,8 @@ theorem fuseBlock_inv (fc : FCfg) (hL : fc.checkLater = true) (hB : fc.checkBloc
     ∀ (rest pre lrest : List (Nat × Stmt)) (seen grp : List Nat), body = pre ++ rest →
       lrest.map (·.2) = (rest.filter (pb b)).map (·.2) → (∀ q ∈ lrest, ((b, q.2), q.1) ∈ all) →
       (lrest.map (·.1)).Nodup → (∀ q ∈ lrest, q.1 ∉ seen) → grp.length = vars.length →
-      FInv (body.map (·.2)) (blockOfV vars) b (pre.map (·.2)) grp →
-      FInv (body.map (·.2)) (blockOfV vars) b (body.map (·.2)) (fuseBlock fc vars (depsOf all) lrest seen grp) := by
+      FInv body (blockOfV vars) (reuseV vars) b (pre.map (·.2)) grp →
+      FInv body (blockOfV vars) (reuseV vars) b (body.map (·.2)) (fuseBlock fc vars (depsOf all) lrest seen grp) := by
   intro rest
   induction rest with
   | nil =>
@@ -391,20 +464,28 @@ theorem fuseBlock_inv (fc : FCfg) (hL : fc.checkLater = true) (hB : fc.checkBloc
           · rw [h]
             obtain ⟨rhs, eff, hsa, hvr⟩ := Stmt.io s v o hvin hoin
             have hxs : x.2 = Stmt.assign o rhs eff := by rw [← hs, hsa]
+            have hxb : x.1 = b := by
+              simp only [pb, Bool.and_eq_true, beq_iff_eq] at hp
+              exact hp.1.1
+            have hx : x = (b, Stmt.assign o rhs eff) := by rw [← hxb, ← hxs]
             have hbv : blockOfV vars v = b := (hdB (b, sid) (mem_depsOf all b s sid v hmem_all hvin)).symm
             have hP : body.map (·.2) = pre.map (·.2) ++ Stmt.assign o rhs eff :: rest'.map (·.2) := by rw [hPsplit, hxs]
             have hvdef : v ∈ outsOf (pre.map (·.2)) := by
               apply live_defined (pre.map (·.2)) (Stmt.assign o rhs eff :: rest'.map (·.2)) (by rw [← hP]; exact hcl) v
               exact (mem_liveIn_cons _ _ _).2 (Or.inl (by simpa [Stmt.reads] using hvr))
+            -- every statement that has `v` among its inputs lies in block `b` …
+            have hrd : ∀ y ∈ body, v ∈ y.2.inputVars → y.1 = b := by
+              intro y hy hvr'
+              obtain ⟨i, hi⟩ := hR y hy (by intro hc; rw [hc] at hvr'; simp at hvr')
+              have := hdB (y.1, i) (mem_depsOf all y.1 y.2 i v hi hvr')
+              simp only at this
+              rw [this, hbv]
+            -- … and has been handled by the loop
             have hdead : ∀ r ∈ rest'.map (·.2), v ∉ r.inputVars := by
               intro r hr hvr'
               obtain ⟨y, hy, rfl⟩ := List.mem_map.1 hr
               have hybody : y ∈ body := by rw [hb]; exact List.mem_append_right _ (List.mem_cons_of_mem _ hy)
-              obtain ⟨i, hi⟩ := hR y hybody (by intro hc; rw [hc] at hvr'; simp at hvr')
-              have hyb : y.1 = b := by
-                have := hdB (y.1, i) (mem_depsOf all y.1 y.2 i v hi hvr')
-                simp only at this
-                rw [this, hbv]
+              have hyb : y.1 = b := hrd y hybody hvr'
               have hkind := Stmt.inputVars_kind y.2 v hvr'
               have hpy : pb b y = true := by simp [pb, hyb, hkind.1, hkind.2]
               have : y.2 ∈ lrest'.map (·.2) := by
@@ -419,7 +500,8 @@ theorem fuseBlock_inv (fc : FCfg) (hL : fc.checkLater = true) (hB : fc.checkBloc
               · exact hseen q (List.mem_cons_of_mem _ hq) hc
             have hvlt : v < grp.length := by rw [hlen]; exact reuseV_lt vars v hrv
             have holt : o < grp.length := by rw [hlen]; exact reuseV_lt vars o hro
-            have := FInv.merge hnd (rest'.map (·.2)) o rhs eff hP hinv v hvlt holt hvr hvdef hdead hbv (by rw [← hblk]; exact hbv)
+            have := FInv.merge hnd rest' o rhs eff (by rw [hb, hx]) hinv v hvlt holt hvr hvdef hdead hbv
+              (by rw [← hblk]; exact hbv) hrv hro hrd
             simpa [List.map_append, hxs] using this
     · rw [List.filter_cons_of_neg hp] at hl
       exact ih (pre ++ [x]) lrest seen grp hb' hl hall hnodup hseen hlen (hinv.mono hsub)
@@ -440,8 +522,8 @@ theorem fuseBlock_block (fc : FCfg) (hL : fc.checkLater = true) (hB : fc.checkBl
     (L : List (Nat × Stmt)) (hdr : List Stmt) (hhdr : ∀ s ∈ hdr, s.inputVars = [])
     (hLs : L.map (·.2) = hdr ++ (body.filter (pb b)).map (·.2)) (hLall : ∀ q ∈ L, ((b, q.2), q.1) ∈ all)
     (hLnd : (L.map (·.1)).Nodup) (grp : List Nat) (hlen : grp.length = vars.length)
-    (hinv : FInv (body.map (·.2)) (blockOfV vars) b [] grp) :
-    FInv (body.map (·.2)) (blockOfV vars) b (body.map (·.2)) (fuseBlock fc vars (depsOf all) L [] grp) := by
+    (hinv : FInv body (blockOfV vars) (reuseV vars) b [] grp) :
+    FInv body (blockOfV vars) (reuseV vars) b (body.map (·.2)) (fuseBlock fc vars (depsOf all) L [] grp) := by
   obtain ⟨L1, L2, hL12, h1, h2⟩ := List.map_eq_append_iff.1 hLs
   subst hL12
   rw [fuseBlock_noinputs fc vars (depsOf all) L1 L2 [] grp (by
